@@ -11,8 +11,9 @@
      1. codec      be32/u32, frame_bytes, write_loop/enc_write (mux.write),
                    enc_write_sizes (size-level twin), trunk, parse_one/parse_all/dec
                    (mux.reader's framing), queue_of (per-connection FIFO)
-     2. fail-stop  mux_st + step: one reader iteration, conn.Read, conn.Write
-                   (optionally cut by a failing trunk), mux.Close, conn.Close
+     2. fail-stop  mux_st + step: one reader iteration, conn.Read (with a buffer of a
+                   given length and capacity), conn.Write (optionally cut by a failing
+                   trunk), mux.Close, conn.Close, mux.Open at any moment
      3. listener   connListener of pkg/net/conn.go *)
 From Coq Require Import List Bool NArith Lia.
 From NRI Require Import Model.MuxConsts.
@@ -187,8 +188,12 @@ Definition frames_prefixb := is_prefixb bytes_eqb.
 Inductive errc := EEOF | EErr.     (* io.EOF | any other error *)
 
 (* one logical connection as seen by its holder: queue = readC, closed = doneC closed,
-   mapped = still in mux.conns (the reader delivers only to mapped connections) *)
-Record conn_st := mkConn { c_id : N; c_queue : list bytes; c_closed : bool; c_mapped : bool }.
+   mapped = still in mux.conns (the reader delivers only to mapped connections).
+   c_late is bookkeeping that is not in the code: the connection was created by an Open after
+   the start.  Frames that arrived for its id before were dropped by design (DESIGN.md I5), so
+   the data theorems (complete / prefix) speak about connections with c_late = false; the
+   fail-stop theorems (latch, nothing blocks after close, idempotence) cover all of them. *)
+Record conn_st := mkConn { c_id : N; c_queue : list bytes; c_closed : bool; c_mapped : bool; c_late : bool }.
 
 (* one end of the trunk.  m_rx: the bytes that will still arrive from the peer before the
    trunk ends (a cut trunk = a prefix of the peer's stream); m_tx: the bytes written so far *)
@@ -204,16 +209,16 @@ Definition set_reader_done v s := mkMux (m_rx s) (m_conns s) (m_err s) (m_closed
 Definition set_tx v b s := mkMux (m_rx s) (m_conns s) (m_err s) (m_closed s) (m_reader_done s) (m_qlen s) v b.
 
 Definition init_mux (rx : bytes) (qlen : N) (opened : list N) : mux_st :=
-  mkMux rx (map (fun id => mkConn id [] false true) opened) None false false qlen [] false.
+  mkMux rx (map (fun id => mkConn id [] false true false) opened) None false false qlen [] false.
 
 Definition find_conn (id : N) (cs : list conn_st) : option conn_st :=
   find (fun c => c_id c =? id) cs.
 Definition upd_conn (id : N) (f : conn_st -> conn_st) (cs : list conn_st) : list conn_st :=
   map (fun c => if c_id c =? id then f c else c) cs.
-Definition c_push (p : bytes) (c : conn_st) := mkConn (c_id c) (c_queue c ++ [p]) (c_closed c) (c_mapped c).
-Definition c_set_queue (q : list bytes) (c : conn_st) := mkConn (c_id c) q (c_closed c) (c_mapped c).
-Definition c_close (c : conn_st) := mkConn (c_id c) (c_queue c) true (c_mapped c).
-Definition c_unmap (c : conn_st) := mkConn (c_id c) (c_queue c) true false.
+Definition c_push (p : bytes) (c : conn_st) := mkConn (c_id c) (c_queue c ++ [p]) (c_closed c) (c_mapped c) (c_late c).
+Definition c_set_queue (q : list bytes) (c : conn_st) := mkConn (c_id c) q (c_closed c) (c_mapped c) (c_late c).
+Definition c_close (c : conn_st) := mkConn (c_id c) (c_queue c) true (c_mapped c) (c_late c).
+Definition c_unmap (c : conn_st) := mkConn (c_id c) (c_queue c) true false (c_late c).
 
 (* setError: errOnce, the first error wins *)
 Definition latch (e : errc) (s : mux_st) : mux_st :=
@@ -251,12 +256,28 @@ Definition reader_fail_step (s : mux_st) : mux_st :=
   else if m_closed s then set_reader_done true (latch EEOF s)
   else fail_reader EErr s.
 
+(* the tail of conn.Read once a frame msg has been taken from the queue, for a caller's buffer of
+   length blen and capacity bcap:
+       if <len|cap>(buf) < len(msg) { return 0, ENOMEM };  copy(buf, msg);  return len(msg), nil
+   copy moves min(len(buf), len(msg)) bytes.  Which of len/cap the guard uses is read from the source
+   (MuxConsts.read_checks_len). *)
+Inductive read_out :=
+| ROData (n : N) (copied : bytes)   (* the returned count and what is in buf[:min(n, len(buf))] *)
+| RONoMem.                          (* syscall.ENOMEM; the frame has been consumed all the same *)
+Definition deliver_by (by_len : bool) (blen bcap : N) (msg : bytes) : read_out :=
+  if (if by_len then blen else bcap) <? lenN msg then RONoMem
+  else ROData (lenN msg) (fst (splitN blen msg)).
+Definition deliver := deliver_by read_checks_len.
+
 Inductive result :=
-| RData (p : bytes)   (* Read returned one frame *)
+| RData (p : bytes)   (* Read returned one frame (buffer large enough) *)
+| RBuf (p : bytes) (o : read_out)   (* Read with an explicit buffer took frame p from the queue; o is what the caller got *)
 | RErr (e : errc)
 | RBlock              (* the call would block now *)
 | ROk
-| RNoConn.            (* the id was never opened on this mux *)
+| RNoConn             (* the id was never opened on this mux *)
+| RReopen.            (* Open of an id whose connection was closed by conn.Close: the code makes a second
+                         connection object for the id; the model keeps one object per id and does not follow *)
 
 (* conn.Read: select { <-doneC ; <-readC }.  When both are ready Go picks either;
    [pick] is that choice (true = the queued frame) *)
@@ -273,6 +294,26 @@ Definition read_step (id : N) (pick : bool) (s : mux_st) : mux_st * result :=
           if c_closed c then let (s', e) := mux_error s in (s', RErr e) else (s, RBlock)
       end
   end.
+
+(* conn.Read(buf) with len(buf) = blen, cap(buf) = bcap: the same select; a frame that is taken goes
+   through [deliver] *)
+Definition read_buf_step (id : N) (pick : bool) (blen bcap : N) (s : mux_st) : mux_st * result :=
+  let (s', r) := read_step id pick s in
+  match r with
+  | RData p => (s', RBuf p (deliver blen bcap p))
+  | _ => (s', r)
+  end.
+
+(* mux.Open(id) at any moment: the reserved id is refused; an id that is in mux.conns yields the
+   existing connection; otherwise a connection is created and — if the source does so
+   (MuxConsts.open_closes_on_closed) — closed at once when the Mux is closed already.
+   [closes] is that switch. *)
+Definition open_step (closes : bool) (id : N) (s : mux_st) : mux_st * result :=
+  if id =? reserved_conn_id then (s, RErr EErr)
+  else match find_conn id (m_conns s) with
+       | Some c => if c_mapped c then (s, ROk) else (s, RReopen)
+       | None => (set_conns (m_conns s ++ [mkConn id [] (closes && m_closed s) true true]) s, ROk)
+       end.
 
 (* the trunk.Write calls of one mux.write: header, payload, header, payload, … *)
 Definition write_calls (fs : list frame) : list N := flat_map (fun f => [8; lenN (snd f)]) fs.
@@ -310,6 +351,8 @@ Definition conn_close_step (id : N) (s : mux_st) : mux_st :=
 Inductive event :=
 | EvReader
 | EvRead (id : N) (pick : bool)
+| EvReadB (id : N) (pick : bool) (blen bcap : N)   (* Read with a buffer of length blen, capacity bcap *)
+| EvOpen (id : N)
 | EvWrite (id : N) (buf : bytes) (cut : option N)
 | EvClose
 | EvConnClose (id : N)
@@ -320,6 +363,8 @@ Definition step_mp (mp : N) (s : mux_st) (e : event) : mux_st * result :=
   match e with
   | EvReader => (reader_step s, ROk)
   | EvRead id pick => read_step id pick s
+  | EvReadB id pick blen bcap => read_buf_step id pick blen bcap s
+  | EvOpen id => open_step open_closes_on_closed id s
   | EvWrite id buf cut => write_step mp id buf cut s
   | EvClose => (do_close s, ROk)
   | EvConnClose id => (conn_close_step id s, ROk)
@@ -338,12 +383,39 @@ Fixpoint run_mp (mp : N) (s : mux_st) (evs : list event) : mux_st * list (event 
 Definition step := step_mp max_payload_size.
 Definition run := run_mp max_payload_size.
 
-(* the frames a holder of connection [id] got from its Read calls, in order *)
+(* the same machine with the Open switch given explicitly (for the refuted variant) *)
+Definition step_var (closes : bool) (mp : N) (s : mux_st) (e : event) : mux_st * result :=
+  match e with
+  | EvOpen id => open_step closes id s
+  | _ => step_mp mp s e
+  end.
+Fixpoint run_var (closes : bool) (mp : N) (s : mux_st) (evs : list event) : mux_st * list (event * result) :=
+  match evs with
+  | [] => (s, [])
+  | e :: r =>
+      let (s1, o) := step_var closes mp s e in
+      let (s2, tr) := run_var closes mp s1 r in
+      (s2, (e, o) :: tr)
+  end.
+
+(* the frames the Read calls of the holder of connection [id] took from its queue, in order.  A Read
+   whose buffer is shorter than the frame takes the frame too and returns ENOMEM: that frame is lost to
+   the holder by the code's documented design (DESIGN.md I5); [delivered] is what the holder really got *)
 Definition received (id : N) (tr : list (event * result)) : list bytes :=
   flat_map (fun eo => match eo with
                       | (EvRead i _, RData p) => if i =? id then [p] else []
+                      | (EvReadB i _ _ _, RBuf p _) => if i =? id then [p] else []
                       | _ => []
                       end) tr.
+Definition delivered (id : N) (tr : list (event * result)) : bytes :=
+  flat_map (fun eo => match eo with
+                      | (EvRead i _, RData p) => if i =? id then p else []
+                      | (EvReadB i _ _ _, RBuf _ (ROData _ c)) => if i =? id then c else []
+                      | _ => []
+                      end) tr.
+(* the connection was opened after the start *)
+Definition late_opened (id : N) (s : mux_st) : bool :=
+  match find_conn id (m_conns s) with Some c => c_late c | None => false end.
 Definition queue_in (id : N) (s : mux_st) : list bytes :=
   match find_conn id (m_conns s) with Some c => c_queue c | None => [] end.
 
